@@ -13,6 +13,13 @@ Local Open Scope nat_scope.
 Lemma prefix_app (a : str) : forall r : str, prefix a (a ++ r) = Some r.
 Proof. induction a as [|x a IH]; intros r; cbn [prefix app]; [reflexivity|]. rewrite N.eqb_refl. apply IH. Qed.
 
+Lemma prefix_some_app' (a n t s : str) : prefix a n = Some t -> prefix a (n ++ s) = Some (t ++ s).
+Proof.
+  revert n. induction a as [|y a IH]; intros n H; cbn [prefix] in *.
+  - injection H as <-. reflexivity.
+  - destruct n as [|z n]; [discriminate|]. cbn [app]. destruct (y =? z)%N; [apply IH; exact H|discriminate].
+Qed.
+
 Definition stops (f : char -> bool) (r : str) : Prop :=
   match r with [] => True | c :: _ => f c = false end.
 
